@@ -52,6 +52,8 @@ void vs_sleep_ms(double ms) { struct timespec ts = { (time_t)(ms / 1000), (long)
 uint64_t vs_now_ns(void) { struct timespec t; clock_gettime(CLOCK_MONOTONIC, &t); return (uint64_t)t.tv_sec * 1000000000ull + (uint64_t)t.tv_nsec; }
 int vs_self(void) { return 0; }
 int vs_active(void) { return 1; }
+int vs_thread_count(void) { return NTH + 1; }
+unsigned vs_sleeps_of(int t) { (void)t; return 1000000; }
 unsigned vs_steps(void) { return 0; }
 int vs_choose(int n) { (void)n; return (int)vs_param("choice", 0); }
 void vs_note(const char* fmt, ...) { (void)fmt; }
